@@ -176,8 +176,8 @@ func runCloneCase(cc CloneCase) (*Fail, []string, map[string]int, error) {
 	}
 	cloneIP := nodeIP(dst.slot, 50)
 	cloneDir := filepath.Join(dst.Base, "clone")
-	portBase := 20000 + 600*(shardNo()%64) + 400
-	child, err := startCloneChild(bin, cloneDir, cloneIP, src.CtrlIP, snapName, dst.CtrlIP, int64(cc.Blocks)*Blk, portBase, portBase+39)
+	pb := portBase() + 170
+	child, err := startCloneChild(bin, cloneDir, cloneIP, src.CtrlIP, snapName, dst.CtrlIP, int64(cc.Blocks)*Blk, pb, pb+39)
 	if err != nil {
 		return nil, nil, nil, err
 	}
@@ -258,7 +258,7 @@ func runCloneCase(cc CloneCase) (*Fail, []string, map[string]int, error) {
 			tr("t=%v clone process killed", time.Since(t0).Round(10*time.Millisecond))
 			time.Sleep(200 * time.Millisecond)
 			// restart the replica process on the same directory
-			c2, err := startCloneChild(bin, cloneDir, cloneIP, src.CtrlIP, snapName, dst.CtrlIP, int64(cc.Blocks)*Blk, portBase+40, portBase+79)
+			c2, err := startCloneChild(bin, cloneDir, cloneIP, src.CtrlIP, snapName, dst.CtrlIP, int64(cc.Blocks)*Blk, pb+40, pb+79)
 			if err != nil {
 				return nil, nil, nil, err
 			}
